@@ -343,6 +343,25 @@ func (c *c17) stable(b pBase, m pMember) {
 		}
 	}
 	check("decode-id", "Decode(Encode(p)).ID()", dec(e))
+	// the receiver of Decode need not be fresh: parameters that held another channel's values
+	// (and its ID) are overwritten completely
+	check("decode-id-used-receiver", "Decode(Encode(p)) into parameters of another channel", func() (channel.ID, error) {
+		d, err := channel.NewParams(99, nParts(2), channel.NoApp(), big.NewInt(0x5eed), true, false, channel.ZeroAux)
+		if err != nil {
+			panic(err)
+		}
+		if err := d.Decode(bytes.NewReader(e)); err != nil {
+			return channel.ID{}, err
+		}
+		fresh, err := channel.CalcID(d)
+		if err != nil {
+			return channel.ID{}, err
+		}
+		if fresh != d.ID() {
+			return d.ID(), fmt.Errorf("ID %x after decoding differs from a fresh CalcID %x of the decoded fields", d.ID(), fresh)
+		}
+		return d.ID(), nil
+	})
 	// the same parameters, nonce encoded with a leading zero byte (same number, other byte length)
 	if len(m.spec.Nonce.Bytes()) < perunio.MaxBigIntLength {
 		check("decode-id-padded-nonce", "Decode(Encode(p) with zero-padded nonce).ID()", dec(encodeParamsRaw(m.p, append([]byte{0}, m.spec.Nonce.Bytes()...))))
